@@ -148,7 +148,8 @@ pub fn scenario_set(tier: Tier, with_loads: bool) -> Vec<Scenario> {
                         }
                         let div_patterns: Vec<Vec<i64>> = if rich { tier.pick(vec![vec![16], vec![4], vec![16, 4], vec![4, 16]], vec![vec![16], vec![8], vec![4], vec![16, 4], vec![4, 16], vec![8, 4, 16]]) } else { vec![vec![16], vec![4], vec![16, 4]] };
                         for divs in div_patterns {
-                            let phase_patterns: Vec<Vec<i64>> = if rich { tier.pick(vec![vec![0, 1, 2]], vec![vec![0], vec![0, 1, 2], vec![2, 0, 1]]) } else { vec![vec![0, 1, 2]] };
+                            // [0] = all stations polled at the very same instants (the schedule that exposed F19)
+                            let phase_patterns: Vec<Vec<i64>> = if rich { tier.pick(if baud == 1 { vec![vec![0, 1, 2], vec![0]] } else { vec![vec![0, 1, 2]] }, vec![vec![0], vec![0, 1, 2], vec![2, 0, 1]]) } else { vec![vec![0, 1, 2], vec![0]] };
                             for phases in phase_patterns {
                                 // thorough: not the full product for every set
                                 if tier == Tier::Thorough && (gap != 1 || baud != 1) && addrs.len() > 2 && phases.len() == 1 {
@@ -329,7 +330,7 @@ pub fn run_ring(which: Which, tier: Tier) -> ! {
         let k = match tier {
             Tier::Quick => 0,
             Tier::Thorough => {
-                if sc.late.is_empty() && sc.addrs.len() <= 3 && sc.baud == 1 && sc.gap == 1 && sc.hsa == 6 && sc.phases.len() == 3 && sc.phases[0] == 0 && matches!(sc.loads[0], Load::None) && sc.loads.len() == 1 && sc.ttr.is_none() && sc.divs != vec![16] && sc.divs != vec![8] {
+                if sc.late.is_empty() && sc.addrs.len() <= 3 && sc.baud == 1 && sc.gap == 1 && sc.hsa == 6 && (sc.phases == vec![0, 1, 2] || sc.phases == vec![0]) && matches!(sc.loads[0], Load::None) && sc.loads.len() == 1 && sc.ttr.is_none() && sc.divs != vec![16] && sc.divs != vec![8] {
                     1
                 } else {
                     0
@@ -342,7 +343,7 @@ pub fn run_ring(which: Which, tier: Tier) -> ! {
     let mut k1 = 0;
     if tier == Tier::Quick {
         let crit: Vec<&Scenario> = scenarios.iter().filter(|s| critical(s)).collect();
-        let pick: Vec<&Scenario> = crit.iter().step_by((crit.len() / 4).max(1)).take(4).copied().collect();
+        let pick: Vec<&Scenario> = crit.iter().copied().collect();
         k1 = pick.len();
         pick.par_iter().for_each(|sc| explore_scenario(which, sc, 1, &tally));
     }
@@ -360,7 +361,7 @@ pub fn run_ring(which: Which, tier: Tier) -> ! {
     if sk > 0 {
         ev.caps_hit.push(format!("time budget {budget_s}s: {sk} of {} scenarios not run", scenarios.len()));
     }
-    ev.bounds = json!({"scenarios": scenarios.len(), "stall_budget": tier.pick("0 everywhere, 1 on selected critical configurations", "1 on all <=3-station HSA-6 19.2k unloaded configurations with a slow poller, 0 elsewhere"), "critical_k1": k1});
+    ev.bounds = json!({"scenarios": scenarios.len(), "stall_budget": tier.pick("0 everywhere, 1 on all critical configurations (19.2k, Tslot/4 pollers, slot >= 300, unloaded, no late joiner)", "1 on all <=3-station HSA-6 19.2k unloaded configurations with a slow poller, 0 elsewhere"), "critical_k1": k1});
     let outcomes = tally.outcomes.lock().unwrap().clone();
     ev.distinct_outcomes = outcomes.len() as u64;
     ev.extra.insert("outcomes".into(), json!(outcomes));
